@@ -3,7 +3,7 @@ import os
 from ..build import Broken
 from ..facts import Module
 from .. import gf2, mode
-from . import aeadlib
+from . import aeadlib, duallib
 
 
 def duality_selfcheck(ck, rule, kind):
@@ -43,7 +43,16 @@ def run_mode(ck, build, kinds, rulemap, helper_fns=True, floor_obl=300):
     return mod, fns, n
 
 
-def fixture_control(ck, build, kinds, rulemap, fixture, wants):
+def run_pairs(ck, mod, kinds, rulemap, label="H/N0", sizes=("128", "192", "256")):
+    """relational encrypt-vs-decrypt obligations (C01 / C08)"""
+    n = 0
+    for kind in kinds:
+        for ks in sizes:
+            n += duallib.check_pair(ck, mod, ks, kind, label, rulemap)
+    return n
+
+
+def fixture_control(ck, build, kinds, rulemap, fixture, wants, pair_rulemap=None):
     fx = Module(build.fixture_facts(os.path.join(os.path.dirname(os.path.dirname(os.path.dirname(__file__))), "fixtures", fixture)))
     sub = type(ck)("mode-fixture")
     for f in aeadlib.cipher_fns(fx, kinds):
@@ -51,6 +60,11 @@ def fixture_control(ck, build, kinds, rulemap, fixture, wants):
             aeadlib.check_cipher(sub, fx, f, "fixture", rulemap)
         except Broken as e:
             sub.bad("BROKEN", f.name, "broken", str(e))
+    if pair_rulemap:
+        try:
+            run_pairs(sub, fx, kinds, pair_rulemap, "fixture", sizes=("128",))
+        except Broken as e:
+            sub.bad("BROKEN", fixture, "broken", str(e))
     got = {v["rule"] for v in sub.violations}
     for w in wants:
         ck.control("%s:%s" % (fixture, w), w in got, "rules violated on fixture: %s" % sorted(got))
